@@ -533,26 +533,50 @@ theorems about THESE definitions, so a re-association in the source is re-proved
 -/
 import Model.Float53
 namespace FV.Generated
-open FV.F
 
 """
 
 
-def render(ei: dict, cm: dict, cf: dict) -> str:
+KFLOAT_OPS = """/-! ## the same text over Lean's kernel `Float`
+
+Only used by a finite `decide +kernel` cross-check in Props/C03.lean (a TEST of the binary64 model on
+the generated formula, not part of a proof). -/
+namespace KFloat
+abbrev F := Float
+def fadd (a b : Float) : Float := a + b
+def fsub (a b : Float) : Float := a - b
+def fmul (a b : Float) : Float := a * b
+def fdiv (a b : Float) : Float := a / b
+def ofNat (n : Nat) : Float := Float.ofNat n
+def ofDecimal (m d : Nat) : Float := Float.ofScientific m true d
+def feq (a b : Float) : Bool := a == b
+def fne (a b : Float) : Bool := a != b
+def fle (a b : Float) : Bool := decide (a ≤ b)
+def flt (a b : Float) : Bool := decide (a < b)
+def fge (a b : Float) : Bool := decide (b ≤ a)
+def fgt (a b : Float) : Bool := decide (b < a)
+def foldOk (step : Float → Float → Float) (init : Float) (fs : List (Option Float)) : Float :=
+  fs.foldl (fun acc r => match r with
+    | some x => step acc x
+    | none => acc) init
+
+"""
+
+
+def render_defs(ei: dict, cm: dict, cf: dict, with_da: bool) -> str:
     ind = "  "
-    t = HEADER
-    t += "/-- `ConstraintFitness.fitness` -/\n"
+    t = "/-- `ConstraintFitness.fitness` -/\n"
     t += f"def cfFitness (solved total : Nat) : F :=\n{ind}{cf['cf']}\n\n"
-    t += "/-- `DistanceAwareConstraintFitness.fitness` (`sum` is CPython's compensated float sum) -/\n"
-    t += f"def daFitness (values : List F) : F :=\n{ind}{cf['da']}\n\n"
+    if with_da:
+        t += "/-- `DistanceAwareConstraintFitness.fitness` (`sum` is CPython's compensated float sum) -/\n"
+        t += f"def daFitness (values : List F) : F :=\n{ind}{cf['da']}\n\n"
     t += ("/-- `Evaluator._evaluate_constraints`: `fs` = what `constraint.fitness(individual).fitness()` gave per\n"
           "    constraint in declaration order, `none` = the call raised (logged, contributes nothing) -/\n")
     t += "def classMean (fs : List (Option F)) : F :=\n"
     t += f"{ind}if {cm['empty_test']} then {cm['empty_value']} else\n"
     for ln in cm["init_lines"]:
         t += f"{ind}{ln}\n"
-    t += (f"{ind}let fitness : F := fs.foldl (fun fitness result => match result with\n"
-          f"{ind}  | some x => {cm['acc']}\n{ind}  | none => fitness) fitness\n")
+    t += f"{ind}let fitness : F := foldOk (fun fitness x => {cm['acc']}) fitness fs\n"
     for ln in cm["post_lines"]:
         t += f"{ind}{ln}\n"
     t += f"{ind}{cm['ret']}\n\n"
@@ -564,9 +588,19 @@ def render(ei: dict, cm: dict, cf: dict) -> str:
     t += f"{ind}{ei['result']}\n\n"
     t += f"/-- the comparison of the acceptance test `{ei['emit']['py']}` -/\n"
     t += f"def acceptCmp (fitness expected : F) : Bool := {ei['emit']['cmp']} fitness expected\n\n"
+    return t
+
+
+def render(ei: dict, cm: dict, cf: dict) -> str:
+    t = HEADER
+    t += "section model\nopen FV.F\n\n"
+    t += render_defs(ei, cm, cf, True)
     t += "/-- the whole emission condition; `seen` = `key in self._solution_set` -/\n"
     t += "def emitCondition (fitness expected : F) (seen : Bool) : Bool := acceptCmp fitness expected && !seen\n\n"
-    t += f"def sourceKey : String := {lean_str(ei.get('key', ''))}\n"
+    t += f"def sourceKey : String := {lean_str(ei.get('key', ''))}\n\nend model\n\n"
+    t += KFLOAT_OPS
+    t += render_defs(ei, cm, cf, False)
+    t += "end KFloat\n"
     t += "\nend FV.Generated\n"
     return t
 
